@@ -249,6 +249,10 @@ def run_case(case):
     def rep(end=END):
         return SingleReplication("r", T(0), T(warm), T(end))
 
+    # a prior history may be a chain of histories, each with its own
+    # initialize
+    chain = list(prior[1:]) if prior[0] == "chain" else [prior]
+
     def body(s):
         out = {}
         for label in ("reference", "subject"):
@@ -257,88 +261,89 @@ def run_case(case):
             rec = Rec()
             notes = []
             if label == "subject":
-                k = prior[0]
                 try:
-                    if k != "none":
-                        r0 = rep(3.0 if k == "ended-short" else
-                                 9.0 if k == "ended-long" else END)
-                        m.rep = r0
-                        sim.initialize(m, r0)
-                        wait_idle(sim, s)
-                        if k == "init-twice":
+                    for prior in chain:
+                        k = prior[0]
+                        if k != "none":
+                            r0 = rep(3.0 if k == "ended-short" else
+                                     9.0 if k == "ended-long" else END)
+                            m.rep = r0
                             sim.initialize(m, r0)
                             wait_idle(sim, s)
-                        elif k == "step":
-                            for _ in range(prior[1]):
+                            if k == "init-twice":
+                                sim.initialize(m, r0)
+                                wait_idle(sim, s)
+                            elif k == "step":
+                                for _ in range(prior[1]):
+                                    sim.step()
+                            elif k == "stop-at":
+                                m.stop_at = prior[1]
+                                sim.start()
+                                wait_idle(sim, s)
+                            elif k == "fault-at":
+                                m.fault_at = prior[1]
+                                sim.start()
+                                wait_idle(sim, s)
+                            elif k == "upto":
+                                sim.run_up_to(T(prior[1]))
+                                wait_idle(sim, s)
+                            elif k == "uptoi":
+                                sim.run_up_to_including(T(prior[1]))
+                                wait_idle(sim, s)
+                            elif k in ("ended", "ended-short", "ended-long"):
+                                sim.start()
+                                wait_idle(sim, s)
+                            elif k == "end_replication":
+                                for _ in range(prior[1]):
+                                    sim.step()
+                                sim.end_replication()
+                                wait_idle(sim, s)
+                            elif k == "cleanup-after-steps":
                                 sim.step()
-                        elif k == "stop-at":
-                            m.stop_at = prior[1]
-                            sim.start()
-                            wait_idle(sim, s)
-                        elif k == "fault-at":
-                            m.fault_at = prior[1]
-                            sim.start()
-                            wait_idle(sim, s)
-                        elif k == "upto":
-                            sim.run_up_to(T(prior[1]))
-                            wait_idle(sim, s)
-                        elif k == "uptoi":
-                            sim.run_up_to_including(T(prior[1]))
-                            wait_idle(sim, s)
-                        elif k in ("ended", "ended-short", "ended-long"):
-                            sim.start()
-                            wait_idle(sim, s)
-                        elif k == "end_replication":
-                            for _ in range(prior[1]):
                                 sim.step()
-                            sim.end_replication()
-                            wait_idle(sim, s)
-                        elif k == "cleanup-after-steps":
-                            sim.step()
-                            sim.step()
-                            sim.cleanup()
-                            wait_idle(sim, s)
-                        elif k == "stop-then-step":
-                            m.stop_at = 2
-                            sim.start()
-                            wait_idle(sim, s)
-                            sim.step()
-                        elif k == "init-from-listener":
-                            from pydsol.core.pubsub import EventListener
-                            from pydsol.core.utils import DSOLError as DE
-                            outl = []
+                                sim.cleanup()
+                                wait_idle(sim, s)
+                            elif k == "stop-then-step":
+                                m.stop_at = 2
+                                sim.start()
+                                wait_idle(sim, s)
+                                sim.step()
+                            elif k == "init-from-listener":
+                                from pydsol.core.pubsub import EventListener
+                                from pydsol.core.utils import DSOLError as DE
+                                outl = []
 
-                            class ReInit(EventListener):
-                                def notify(self_, e):
-                                    if outl:
-                                        return
-                                    try:
-                                        sim.initialize(m, r0)
-                                        outl.append("accepted")
-                                    except DE:
-                                        outl.append("DSOLError")
-                                    except Exception as ex:  # noqa
-                                        outl.append("other:" +
-                                                    type(ex).__name__)
-                            nm = {v: k_ for k_, v in rec.names.items()}
-                            sim.add_listener(nm[prior[1]], ReInit())
-                            n0 = sim.eventlist().size()
-                            sim.start()
-                            wait_idle(sim, s)
-                            notes.append(("init-from-listener",
-                                          outl[0] if outl else None, n0,
-                                          len(m.log),
-                                          sim.run_state.name))
-                        elif k == "init-from-handler":
-                            m.init_at = prior[1]
-                            sim.start()
-                            wait_idle(sim, s)
-                            notes.append(("init-from-handler", m.init_out,
-                                          sim.run_state.name,
-                                          len(m.log)))
-                            m.init_at = None
-                        notes.append(("prior-state", sim.run_state.name,
-                                      sim.replication_state.name))
+                                class ReInit(EventListener):
+                                    def notify(self_, e):
+                                        if outl:
+                                            return
+                                        try:
+                                            sim.initialize(m, r0)
+                                            outl.append("accepted")
+                                        except DE:
+                                            outl.append("DSOLError")
+                                        except Exception as ex:  # noqa
+                                            outl.append("other:" +
+                                                        type(ex).__name__)
+                                nm = {v: k_ for k_, v in rec.names.items()}
+                                sim.add_listener(nm[prior[1]], ReInit())
+                                n0 = sim.eventlist().size()
+                                sim.start()
+                                wait_idle(sim, s)
+                                notes.append(("init-from-listener",
+                                              outl[0] if outl else None, n0,
+                                              len(m.log),
+                                              sim.run_state.name))
+                            elif k == "init-from-handler":
+                                m.init_at = prior[1]
+                                sim.start()
+                                wait_idle(sim, s)
+                                notes.append(("init-from-handler", m.init_out,
+                                              sim.run_state.name,
+                                              len(m.log)))
+                                m.init_at = None
+                            notes.append(("prior-state", sim.run_state.name,
+                                          sim.replication_state.name))
                 except DSOLError as ex:
                     notes.append(("prior-raised-DSOLError", str(ex)[:60]))
                 except Exception as ex:  # noqa
@@ -414,6 +419,17 @@ def run(ctx):
     warms = (1.0, 0.0) if quick else (1.0, 0.0, 2.5)
     cases = [(c, v, p, w) for c in clocks for v in variants for p in PRIORS
              for w in warms]
+    # chains of two prior histories (each with its own initialize): all
+    # ordered pairs in the thorough tier, every history followed / preceded
+    # by a completed replication in the quick tier
+    pairs = [(p, q) for p in PRIORS[1:] for q in PRIORS[1:]]
+    cases += [(c, v, ("chain", p, q), w) for p, q in pairs
+              for c in (("float",) if quick else clocks)
+              for v in ((0,) if quick else (0, 1))
+              for w in ((1.0,) if quick else (1.0, 0.0))]
+    if not quick:
+        cases += [("float", 0, ("chain", p, q, r), 1.0)
+                  for p in PRIORS[1:] for q in PRIORS[1:] for r in PRIORS[1:]]
     if ctx.seed:
         cases += [("float", 4 + ctx.seed % 50, p, 1.0) for p in PRIORS]
     n = nontriv = 0
@@ -423,14 +439,16 @@ def run(ctx):
         if sample:
             ctx.sample(sample, limit=2)
         for b in bad:
-            ctx.violation("C06:%s:%s" % (case[2][0], b[0]),
+            hist = case[2][0] if case[2][0] != "chain" else \
+                "chain-" + "-".join(x[0] for x in case[2][1:])
+            ctx.violation("C06:%s:%s" % (hist, b[0]),
                           "%s clock, model variant %d, warm-up %s, prior "
                           "history %s: %s differs: after the prior history %s, "
                           "on a brand-new simulator %s" % (
                               case[0], case[1], case[3], case[2], b[0], b[1],
                               b[2]),
-                          {"case": [case[0], case[1], list(case[2]),
-                                    case[3]]})
+                          {"case": [case[0], case[1], common.jsonable(
+                              case[2]), case[3]]})
     ctx.part("prior histories x models x clocks", cases=n,
              priors=len(PRIORS))
     ctx.coverage.update(
@@ -440,7 +458,10 @@ def run(ctx):
         "SimTally, SimWeightedTally, SimPersistent all created in "
         "construct_model; a MAX_PRIORITY model event exactly at the warm-up "
         "time; events left pending beyond the end) x warm-up in %s x prior "
-        "history in %s. The following replication (initialize + run to the "
+        "history in %s, plus chains of prior histories, each with its own "
+        "initialize (quick: all ordered pairs on the float clock; thorough: "
+        "all ordered pairs on all clocks, two model variants and warm-ups, "
+        "all ordered triples on the float clock). The following replication (initialize + run to the "
         "end) is compared with the same replication on a brand-new simulator "
         "and model on: initialize outcome, clock/pending events/state right "
         "after initialize, registered statistic keys and object identity, "
@@ -458,5 +479,7 @@ def run(ctx):
 def replay(data):
     coopsched.install()
     c = data["case"]
-    bad, o = run_case((c[0], c[1], tuple(c[2]), c[3]))
+    def tup(x):
+        return tuple(tup(i) for i in x) if isinstance(x, list) else x
+    bad, o = run_case((c[0], c[1], tup(c[2]), c[3]))
     return bad or None
